@@ -545,7 +545,7 @@ class C20:
         return {'digest': log.digest(), 'events': log.seq + fs.seam_events, 'faults': faults_fired, 'probes': probes, 'shape': shape,
                 'nontrivial': ops_through_os > 0 and (probes.get('load_equal_checked', 0) + probes.get('dump_equal_checked', 0) +
                                                       probes.get('converter_equal_checked', 0) + probes.get('roundtrip_checked', 0)) > 0,
-                'config': plan['config'], 'violations': viol, 'extra': {'sum': {'ops_through_os': ops_through_os}}}
+                'config': plan['config'], 'hash_sensitive': any(o['op'] == 'cli_interrupt' for o in plan['ops']), 'violations': viol, 'extra': {'sum': {'ops_through_os': ops_through_os}}}
 
     # ---------------------------------------------------------------- helpers
     @staticmethod
